@@ -1,8 +1,9 @@
 (** C07 — the edge-free-cell branch of loopCrosser.hasCrossingRelation.
-    Intended contract (comment of hasCrossingRelation): it may answer "crossing" only if there
-    is a point P (a cell centre) that matches both crossing targets, i.e. the cell of A matches
-    A's target and some covered cell of B matches B's target. The branch as written has the
-    test on A exchanged; the contract is refuted, the repaired branch satisfies it. *)
+    Contract (comment of hasCrossingRelation): it may answer "crossing" only if there is a point
+    P (a cell centre) that matches both crossing targets, i.e. the cell of A matches A's target
+    and some covered cell of B matches B's target. The branch as it stood before /repo commit
+    42e42d2 had the test on A exchanged and refutes the contract (finding
+    Loop.Contains.edgeless-cell-target, fixed); the current branch satisfies it. *)
 From Coq Require Import List Bool.
 From Geo Require Import Model.RelWalk.
 Import ListNotations.
@@ -11,30 +12,27 @@ Definition branch_contract (f : bool -> ctarget -> ctarget -> list bool -> bool)
   forall a_cc ta tb b_ccs, f a_cc ta tb b_ccs = true ->
     cc_matches a_cc ta = true /\ exists b, In b b_ccs /\ cc_matches b tb = true.
 
-Lemma edge_free_branch_contract_refuted : ~ branch_contract edge_free_branch.
+Lemma edge_free_branch_contract : branch_contract edge_free_branch.
+Proof.
+  intros a ta tb bs H. unfold edge_free_branch in H.
+  destruct (cc_matches a ta) eqn:E; simpl in H; [|discriminate].
+  split; [reflexivity|]. apply existsb_exists in H. destruct H as [b [Hb Hm]]. now exists b.
+Qed.
+
+(** and it takes the shortcut whenever such a centre exists *)
+Lemma edge_free_branch_complete a ta tb bs b :
+  cc_matches a ta = true -> In b bs -> cc_matches b tb = true -> edge_free_branch a ta tb bs = true.
+Proof.
+  intros Ha Hb Hm. unfold edge_free_branch. rewrite Ha. simpl. apply existsb_exists. now exists b.
+Qed.
+
+Lemma before_fix_contract_refuted : ~ branch_contract edge_free_branch_before_42e42d2.
 Proof.
   intro H. (* containsRelation: A's target DontCross, B's target Cross; A's cell is interior *)
   destruct (H true TDontCross TCross [true] eq_refl) as [E _]. discriminate E.
 Qed.
 
-Lemma edge_free_branch_refuted :
-  exists a_cc ta tb b_ccs, edge_free_branch a_cc ta tb b_ccs = true /\ cc_matches a_cc ta = false.
+Lemma before_fix_refuted :
+  exists a_cc ta tb b_ccs,
+    edge_free_branch_before_42e42d2 a_cc ta tb b_ccs = true /\ cc_matches a_cc ta = false.
 Proof. exists true, TDontCross, TCross, [true]. split; reflexivity. Qed.
-
-Lemma edge_free_branch_repaired_contract : branch_contract edge_free_branch_repaired.
-Proof.
-  intros a ta tb bs H. unfold edge_free_branch_repaired in H.
-  destruct (cc_matches a ta) eqn:E; simpl in H; [|discriminate].
-  split; [reflexivity|]. apply existsb_exists in H. destruct H as [b [Hb Hm]]. now exists b.
-Qed.
-
-(** an index never holds an edge-free cell that is outside the loop, so on reachable inputs
-    ([a_cc = true]) the branch as written: never fires for Intersects (a missed shortcut only),
-    and for Contains fires exactly when some covered cell centre of B is inside B — although
-    that centre is inside A as well. *)
-Lemma edge_free_branch_interior_contains b_ccs :
-  edge_free_branch true TDontCross TCross b_ccs = existsb (fun b => b) b_ccs.
-Proof. reflexivity. Qed.
-Lemma edge_free_branch_interior_intersects b_ccs :
-  edge_free_branch true TCross TCross b_ccs = false.
-Proof. reflexivity. Qed.
